@@ -233,7 +233,15 @@ def grcv_path():
 def run_grcv(lines, timeout=600):
     """Feed command lines to the compiled Lean driver; return list of output lines."""
     inp = "\n".join(lines) + "\n"
-    r = subprocess.run([grcv_path()], input=inp, capture_output=True, text=True, timeout=timeout)
+    for _try in range(120):
+        # the binary is briefly absent while another check relinks it after a source change
+        try:
+            r = subprocess.run([grcv_path()], input=inp, capture_output=True, text=True, timeout=timeout)
+            break
+        except (FileNotFoundError, PermissionError, OSError):
+            time.sleep(1)
+    else:
+        raise RuntimeError("grcv binary not available")
     if r.returncode != 0:
         raise RuntimeError("grcv failed rc=%s: %s" % (r.returncode, r.stderr[-2000:]))
     return r.stdout.split("\n")
